@@ -1526,3 +1526,131 @@ Theorem C02_bridge_frames_attach_example : exists w rt sm,
   X12.BridgeAttach.fidx (chs_run [] 0%N 0 [] X12.BridgeAttach.exa_b) 0 X12.BridgeAttach.exa_b X12.BridgeAttach.exa_fs = [2%nat].
 Proof. exact X12.BridgeAttach.attach_example. Qed.
 Print Assumptions C02_bridge_frames_attach_example.
+
+(* ================================================================================================ *)
+(* Round 6, eighth layer — annotations, AnnotationDefault, the Module attributes and Record inside the fragment
+   (coq/X12/BridgeAnnot.v, BridgeModule.v, BridgeRecord.v, BridgeFile5.v). *)
+From FB Require X12.BridgeAnnot X12.BridgeModule X12.BridgeRecord X12.BridgeFile5.
+
+(* ELEMENT VALUES: whatever element_value tree C02's decoder (parse_elem, any fuel) accepts from a prefix, C01's reader reads
+   from the same bytes followed by anything through its tag-selected format ev_fmt k, for every k that bounds the nesting
+   of annotation- and array-valued elements (ev_depth); the value is the tree with every string decoded and every constant
+   taken through the accessor C01's table selects for the tag (B as i8, C as u16, S as i16, Z as != 0: econst_val) *)
+Theorem C02_bridge_element_value : forall impl dec cs fuel k s e r t,
+  parse_elem fuel (cslots cs 1) s = Some (e, r) -> (X12.BridgeAnnot.ev_depth e <= k)%nat ->
+  C01.Fmt.rd_fmt impl dec (C01.ClassFile.acc (X12.BridgePool.rpool dec cs)) (C01.ClassFile.ev_fmt k) (s ++ t)
+  = Ok (X12.BridgeAnnot.ev_val dec e, r ++ t).
+Proof. exact X12.BridgeAnnot.elem_read. Qed.
+Print Assumptions C02_bridge_element_value.
+
+(* RuntimeVisibleAnnotations / RuntimeInvisibleAnnotations at class, field or method level (any selector that maps the
+   two names to annotations_fmt: class_sel, field_sel, method_sel do), and AnnotationDefault; anns_ok / ev_nest_ok:
+   element values nest at most 64 deep (C01's max_ev_nesting, duke's limit), decidable on the decoder's answer *)
+Theorem C02_bridge_annotations : forall impl dec cs,
+  (forall l sel s vis la r t,
+     X12.BridgePool.sdec dec s_RVAnn = C01.Formats.a_RuntimeVisibleAnnotations ->
+     X12.BridgePool.sdec dec s_RIAnn = C01.Formats.a_RuntimeInvisibleAnnotations ->
+     (l = AtClass \/ l = AtField \/ l = AtMethod) -> X12.BridgeAnnot.ann_sel_ok sel -> X12.BridgeAnnot.anns_ok la = true ->
+     p_attr l (cslots cs 1) s = Some (ALeaf (AAnnotations vis la), r) ->
+     C01.Fmt.rd_fmt impl dec (C01.ClassFile.acc (X12.BridgePool.rpool dec cs)) (C01.Fmt.FAttr sel) (s ++ t)
+     = Ok (X12.BridgeAnnot.v_Annotations dec vis la, r ++ t)) /\
+  (X12.BridgeAnnot.ann_sel_ok C01.ClassFile.class_sel /\ X12.BridgeAnnot.ann_sel_ok C01.ClassFile.field_sel /\
+   X12.BridgeAnnot.ann_sel_ok C01.ClassFile.method_sel) /\
+  (forall s e r t,
+     X12.BridgePool.sdec dec s_AnnotationDefault = C01.Formats.a_AnnotationDefault -> X12.BridgeAnnot.ev_nest_ok e = true ->
+     p_attr AtMethod (cslots cs 1) s = Some (AAnnotationDefault e, r) ->
+     C01.Fmt.rd_fmt impl dec (C01.ClassFile.acc (X12.BridgePool.rpool dec cs)) (C01.Fmt.FAttr C01.ClassFile.method_sel) (s ++ t)
+     = Ok (X12.BridgeAnnot.v_AnnotationDefault dec e, r ++ t)).
+Proof.
+  intros impl dec cs. split; [|split].
+  - intros l sel s vis la r t. exact (X12.BridgeAnnot.attr_Annotations impl dec cs l sel s vis la r t).
+  - exact (conj X12.BridgeAnnot.ann_sel_class (conj X12.BridgeAnnot.ann_sel_field X12.BridgeAnnot.ann_sel_method)).
+  - intros s e r t. exact (X12.BridgeAnnot.attr_AnnotationDefault impl dec cs s e r t).
+Qed.
+Print Assumptions C02_bridge_annotations.
+
+(* Module (name, flags, version, requires, exports, opens, uses, provides), ModulePackages, ModuleMainClass, and Record
+   (each component: name, descriptor and its own attribute list read through C01's record_sel: Signature, the two annotation
+   attributes, unknown attributes under unk_ok — rcompb, decidable) *)
+Theorem C02_bridge_module_record : forall impl dec cs,
+  (forall s x r t, X12.BridgePool.sdec dec s_Module = C01.Formats.a_Module ->
+     p_attr AtClass (cslots cs 1) s = Some (AModule x, r) ->
+     C01.Fmt.rd_fmt impl dec (C01.ClassFile.acc (X12.BridgePool.rpool dec cs)) (C01.Fmt.FAttr C01.ClassFile.class_sel) (s ++ t)
+     = Ok (X12.BridgeModule.v_Module dec x, r ++ t)) /\
+  (forall s x r t, X12.BridgePool.sdec dec s_ModulePackages = C01.Formats.a_ModulePackages ->
+     p_attr AtClass (cslots cs 1) s = Some (AModulePackages x, r) ->
+     C01.Fmt.rd_fmt impl dec (C01.ClassFile.acc (X12.BridgePool.rpool dec cs)) (C01.Fmt.FAttr C01.ClassFile.class_sel) (s ++ t)
+     = Ok (X12.BridgeModule.v_ModulePackages dec x, r ++ t)) /\
+  (forall s x r t, X12.BridgePool.sdec dec s_ModuleMainClass = C01.Formats.a_ModuleMainClass ->
+     p_attr AtClass (cslots cs 1) s = Some (AModuleMainClass x, r) ->
+     C01.Fmt.rd_fmt impl dec (C01.ClassFile.acc (X12.BridgePool.rpool dec cs)) (C01.Fmt.FAttr C01.ClassFile.class_sel) (s ++ t)
+     = Ok (X12.BridgeModule.v_ModuleMainClass dec x, r ++ t)) /\
+  (forall s x r t, X12.BridgePool.sdec dec s_Record = C01.Formats.a_Record ->
+     X12.BridgePool.sdec dec s_Signature = C01.Formats.a_Signature ->
+     X12.BridgePool.sdec dec s_RVAnn = C01.Formats.a_RuntimeVisibleAnnotations ->
+     X12.BridgePool.sdec dec s_RIAnn = C01.Formats.a_RuntimeInvisibleAnnotations ->
+     forallb (X12.BridgeRecord.rcompb dec) x = true ->
+     p_attr AtClass (cslots cs 1) s = Some (ARecord x, r) ->
+     C01.Fmt.rd_fmt impl dec (C01.ClassFile.acc (X12.BridgePool.rpool dec cs)) (C01.Fmt.FAttr C01.ClassFile.class_sel) (s ++ t)
+     = Ok (X12.BridgeRecord.v_Record dec x, r ++ t)).
+Proof.
+  intros impl dec cs. repeat split.
+  - intros s x r t. exact (X12.BridgeModule.attr_Module impl dec cs s x r t).
+  - intros s x r t. exact (X12.BridgeModule.attr_ModulePackages impl dec cs s x r t).
+  - intros s x r t. exact (X12.BridgeModule.attr_ModuleMainClass impl dec cs s x r t).
+  - intros s x r t. exact (X12.BridgeRecord.attr_Record impl dec cs s x r t).
+Qed.
+Print Assumptions C02_bridge_module_record.
+
+(* THE WHOLE FILE, fragment 5 (dclass_frag5 dec, decidable on facts_of t aux and the decoder) = fragment 4
+   + RuntimeVisibleAnnotations / RuntimeInvisibleAnnotations at class, field and method level, AnnotationDefault (element
+     values nested at most 64 deep)
+   + Module, ModulePackages, ModuleMainClass, Record (class) *)
+Theorem C02_bridge_class_file_annotations : forall impl dec t bs aux d,
+  cclass_ok t = true -> write_class_aux t = WOK (bs, aux) ->
+  C01.Attr.header_ok C01.Tables.magic (Z.to_N (k_minor t)) (Z.to_N (k_major t)) = true ->
+  X12.BridgeClass.pool_utf8_ok dec (a_pool aux) = true -> X12.BridgeFile5.names_ok5 dec = true ->
+  facts_of t aux = Some d -> X12.BridgeFile5.dclass_frag5 dec d = true ->
+  exists cs cattrs mvals,
+    rev (p_inner (a_pool aux)) = map mk cs /\ agrees (a_pool aux) (cslots cs 1) /\
+    Forall2 (X12.BridgeFile5.crel5 dec cs) (d_attrs d) cattrs /\
+    Forall2 (X12.BridgeFile3.member_rel dec 2%N (X12.BridgeFile5.mrel5 dec)) (d_methods d) mvals /\
+    C01.ClassFile.read_class impl dec bs
+    = C01.ClassFile.build_class impl (X12.BridgePool.rpool dec cs) (Z.to_N (k_minor t)) (Z.to_N (k_major t))
+        (X12.BridgeClass.head_val dec t)
+        (C01.Fmt.VList cattrs)
+        (C01.Fmt.VList (map (X12.BridgeFile.member_val dec 1%N (X12.BridgeFile5.fattr_val5 dec)) (d_fields d)))
+        (C01.Fmt.VList mvals).
+Proof. exact X12.BridgeFile5.class_file_read5. Qed.
+Print Assumptions C02_bridge_class_file_annotations.
+
+(* non-vacuity: the class of the previous example with the three Module attributes, a Record component (signature, the
+   nested annotation, an unknown attribute), a nested annotation on the class and the method (an array-valued element with
+   an int and a boolean, an annotation-valued element holding an enum constant, a class literal, a string), an invisible
+   marker annotation on class and field, and an AnnotationDefault that is an array holding an annotation and a short:
+   inside fragment 5, outside fragment 4; C01's read_class on the written bytes, computed, succeeds, and its description
+   holds exactly the translated annotation in the class's RuntimeVisibleAnnotations slot and the translated default value
+   in the method's AnnotationDefault slot *)
+Theorem C02_bridge_class_file_annotations_example : exists bs aux d cs cattrs mvals cd,
+  write_class_aux X12.BridgeFile5.ex_file5 = WOK (bs, aux) /\ cclass_ok X12.BridgeFile5.ex_file5 = true /\
+  facts_of X12.BridgeFile5.ex_file5 aux = Some d /\
+  X12.BridgeFile5.in_fragment5 C01.Mutf8.mutf8_dec X12.BridgeFile5.ex_file5 aux = true /\
+  X12.BridgeFile4.in_fragment4 C01.Mutf8.mutf8_dec X12.BridgeFile5.ex_file5 aux = false /\
+  Forall2 (X12.BridgeFile5.crel5 C01.Mutf8.mutf8_dec cs) (d_attrs d) cattrs /\ length cattrs = 11%nat /\
+  Forall2 (X12.BridgeFile3.member_rel C01.Mutf8.mutf8_dec 2%N (X12.BridgeFile5.mrel5 C01.Mutf8.mutf8_dec)) (d_methods d) mvals /\
+  C01.ClassFile.read_class true C01.Mutf8.mutf8_dec bs
+  = C01.ClassFile.build_class true (X12.BridgePool.rpool C01.Mutf8.mutf8_dec cs) 0%N 61%N
+      (X12.BridgeClass.head_val C01.Mutf8.mutf8_dec X12.BridgeFile5.ex_file5)
+      (C01.Fmt.VList cattrs)
+      (C01.Fmt.VList (map (X12.BridgeFile.member_val C01.Mutf8.mutf8_dec 1%N (X12.BridgeFile5.fattr_val5 C01.Mutf8.mutf8_dec)) (d_fields d)))
+      (C01.Fmt.VList mvals) /\
+  C01.ClassFile.read_class true C01.Mutf8.mutf8_dec bs = Ok cd /\
+  In (C01.Formats.a_RuntimeVisibleAnnotations, C01.Fmt.VList [X12.BridgeAnnot.ann_val C01.Mutf8.mutf8_dec X12.BridgeFile5.ex_ann])
+     (C01.ClassFile.cd_slots cd) /\
+  match C01.ClassFile.cd_methods cd with
+  | [m] => In (C01.Formats.a_AnnotationDefault, X12.BridgeAnnot.ev_val C01.Mutf8.mutf8_dec X12.BridgeFile5.ex_default)
+              (C01.ClassFile.md_slots m)
+  | _ => False
+  end.
+Proof. exact X12.BridgeFile5.class_file_example5. Qed.
+Print Assumptions C02_bridge_class_file_annotations_example.
